@@ -13,6 +13,7 @@ import ipaddress
 import os
 import shutil
 import tempfile
+import zlib
 
 from . import model, osproxy
 
@@ -351,16 +352,37 @@ class Engine(osproxy.Sink):
         raise CaseEnd()
 
     # -- owners -----------------------------------------------------------
+    def owner_form(self, owner):
+        """What an owner path IS: the three databases store a path and take its existence for the owner's life -
+        a directory (container directory, /proc/<pid>), a link to one (resources/<id>), or a regular file
+        (a pid / state file).  Fixed per owner name (no draw from the case streams)."""
+        return ('file', 'link', 'dir', 'dir', 'dir')[zlib.crc32(owner.encode()) % 5]
+
     def appear(self, owner):
         path = self.ad.owner_path(owner)
-        os.mkdir(path)
+        form = self.owner_form(owner)
+        if form == 'file':
+            with open(path, 'w') as f:
+                f.write('4242\n')
+        elif form == 'link':
+            os.mkdir(os.path.join(self.base, 'req-' + owner))
+            os.symlink(os.path.join(self.base, 'req-' + owner), path)
+        else:
+            os.mkdir(path)
+        self.ctx.count('owners_%s' % form)
         self.alive.add(owner)
         self.born.append(owner)
         if owner in self.unborn:
             self.unborn.remove(owner)
 
     def die(self, owner):
-        os.rmdir(self.ad.owner_path(owner))
+        form = self.owner_form(owner)
+        if form == 'dir':
+            os.rmdir(self.ad.owner_path(owner))
+        else:
+            os.unlink(self.ad.owner_path(owner))
+            if form == 'link':
+                os.rmdir(os.path.join(self.base, 'req-' + owner))
         self.alive.discard(owner)
         self.dead.add(owner)
 
@@ -700,6 +722,7 @@ class Engine(osproxy.Sink):
                     self.flags.add('conflict')
                     self.ctx.count('create_conflicts')
                     if cur in pre_alive:
+                        self.ctx.count('create_conflicts_holder_is_%s' % self.owner_form(cur))
                         if self.kind == 'rule' and exc is None:
                             self.violate('conflicting-create-did-not-raise',
                                          'create_rule(%s) by %s returned normally; held by live %s' % (e, actor, cur))
